@@ -311,7 +311,9 @@ class TLSTransportWrapper:
             data: Plaintext data to encrypt and send.
         """
         if self.tls_protocol.tls_conn:
-            self.tls_protocol.tls_conn.send(data)
+            # send() may stop after one TLS record (16 KiB) and only reports how
+            # much it took; sendall() keeps going until everything is encrypted
+            self.tls_protocol.tls_conn.sendall(data)
             self.tls_protocol._flush_outgoing()
 
     def close(self) -> None:
